@@ -21,7 +21,9 @@ VARIANTS = {
     "CJJ14.PiPack": [dict(param_B=4), dict(param_lambda=16, prf_f_output_length=16, param_B=3, param_identifier_size=4), dict()],
     "CJJ14.PiPtr": [dict(param_B=4, param_b=2), dict(param_lambda=24, prf_f_output_length=24, param_B=2, param_b=3, param_identifier_size=4), dict()],
     "CJJ14.Pi2Lev": [dict(param_B=4, param_b=4, param_B_prime=4, param_b_prime=4), dict(param_B=8, param_b=4, param_B_prime=8, param_b_prime=4),
-                     dict(param_lambda=16, prf_f_output_length=16, param_B=4, param_b=8, param_B_prime=4, param_b_prime=8), dict()],
+                     dict(param_lambda=16, prf_f_output_length=16, param_B=4, param_b=8, param_B_prime=4, param_b_prime=8),
+                     dict(param_B=8, param_b=8, param_B_prime=7, param_b_prime=7, param_identifier_size=4),
+                     dict(param_B=4, param_b=4, param_B_prime=8, param_b_prime=8), dict()],
     "CT14.Pi": [dict(), dict(param_k=16, param_k_prime=16, param_l=16, param_identifier_size=8)],
     "ANSS16.Scheme3": [dict(), dict(param_lambda=16, param_k=16, param_k_prime=16, param_l=8, param_l_prime=16, param_identifier_size=8)],
     "DP17.Pi": [dict(), dict(param_lambda=16, param_identifier_size=4)],
@@ -91,7 +93,7 @@ def expected(name, lst):
 def setups(tier):
     out = []
     for name in SCHEMES:
-        vs = VARIANTS[name] if tier == "thorough" else VARIANTS[name][:2]
+        vs = VARIANTS[name] if (tier == "thorough" or name == "CJJ14.Pi2Lev") else VARIANTS[name][:2]
         for v in vs:
             out.append(Setup(name, v))
     return out
@@ -130,6 +132,9 @@ def rt_c01_c02(rnd, tier):
                 absent += [w[:-1], w + b"x", w[1:], bytes([w[0] ^ 1]) + w[1:]]
             absent.append(bytes(rnd.getrandbits(8) | 1 for _ in range(st.kwlen())))
             absent = [a for a in absent if a and a not in db and a[0] != 0 and len(a) <= cfg.get("param_l", 64)]
+            if not st.name.startswith("CGKO06"):
+                # fixed, easily guessed byte patterns (CGKO06 pads keywords to a bit string, so NUL-led ones are outside its domain)
+                absent += [b"\x00" * n for n in (1, 8, 16, 32)] + [b"\xff" * 32, b"dummy", b"padding"]
             for w in list(db) + absent:
                 cases += 1
                 want = expected(st.name, db.get(w, []))
@@ -144,6 +149,33 @@ def rt_c01_c02(rnd, tier):
                         st.name, len(got), len(want), "stored" if w in db else "absent", prof), scheme=st.name, profile=prof,
                         config={k: v for k, v in st.cfg.items() if k.startswith("param")})
                     break
+    # long histories on one scheme object: tokens requested for many other keywords must not change later answers
+    for st in setups(tier):
+        prof = [2, 3]
+        if not st.fits(prof):
+            continue
+        for n_other in ((255,) if tier == "quick" else (63, 127, 255, 256, 511, 1023)):
+            db = st.make_db(rnd, prof)
+            try:
+                sch, cfg = st.scheme(db)
+                key = sch.KeyGen()
+                edb = sch.EDBSetup(key, copy.deepcopy(db))
+                gone = bytes(rnd.getrandbits(8) | 1 for _ in range(st.kwlen()))
+                first = as_result(sch.Search(edb, sch.TokenGen(key, gone)))
+                for i in range(n_other):
+                    sch.TokenGen(key, bytes([1 + i % 200, 1 + i // 200] + [rnd.getrandbits(8) | 1 for _ in range(st.kwlen() - 2)]))
+                for w in list(db):          # stored keywords are requested for the first time only now
+                    sch.TokenGen(key, w)
+                cases += 1
+                again = as_result(sch.Search(edb, sch.TokenGen(key, gone)))
+                if again != first or len(again) != 0:
+                    _viol(viol, "%s: an absent keyword returns %d identifiers when asked again after %d other token requests" % (
+                        st.name, len(again), n_other + len(db)), scheme=st.name)
+                for w in db:
+                    if as_result(sch.Search(edb, sch.TokenGen(key, w))) != expected(st.name, db[w]):
+                        _viol(viol, "%s: a stored keyword's answer changed after a long history of token requests" % st.name, scheme=st.name)
+            except Exception as ex:
+                _viol(viol, "%s: long search history raised %s" % (st.name, type(ex).__name__), scheme=st.name)
     return {"cases": cases, "bound": "9 schemes x %s configurations x %d list-length profiles (N <= %d), every stored keyword + "
                                      "prefix/suffix/near-duplicate/random absent keywords" % (
                                          "all" if tier == "thorough" else "2", len(PROFILES if tier == "thorough" else PROFILES[:20]),
@@ -326,14 +358,52 @@ def rt_c06(rnd, tier):
                         _viol(viol, "%s: table %d (%d entries) is not in label order (list lengths %s)" % (st.name, ti, len(ks), prof),
                               scheme=st.name, profile=prof)
                         break
-    return {"cases": cases, "bound": "6 ordered-table schemes x 2 configurations x 7 databases x 3 keyword orders", "violations": viol}
+    # array placement: the slots Search reads differ between two setups (same key where placement is random)
+    class Rec(list):
+        def __getitem__(self, i):
+            self.seen.add(i)
+            return list.__getitem__(self, i)
+    for st in setups(tier):
+        if st.name not in ("CJJ14.PiPtr", "CJJ14.Pi2Lev"):
+            continue
+        c = st.cfg
+        big = c["param_B"] * c.get("param_b_prime", 1) + 1 if st.name == "CJJ14.Pi2Lev" else 0
+        profs = [[c["param_B"] * 4, c["param_B"] * 5, c["param_B"] * 6]]
+        if st.name == "CJJ14.Pi2Lev" and big < 70:
+            profs.append([big + 3, big + 9])          # only two-level (large) lists
+            profs.append([big + 3, c["param_b"] + 1]) # large + medium
+        for prof in profs:
+            if not st.fits(prof):
+                continue
+            db = st.make_db(rnd, prof)
+            sch, cfg = st.scheme(db)
+            key = sch.KeyGen()
+            reads = []
+            for rep in range(2):
+                edb = sch.EDBSetup(key, copy.deepcopy(db))
+                rec = Rec(edb.A)
+                rec.seen = set()
+                edb.A = rec
+                per = {}
+                for w in db:
+                    rec.seen = set()
+                    sch.Search(edb, sch.TokenGen(key, w))
+                    per[w] = frozenset(rec.seen)
+                reads.append(per)
+            cases += 1
+            nblocks = sum(len(x) for x in reads[0].values())
+            if nblocks >= 12 and reads[0] == reads[1]:
+                _viol(viol, "%s: %d array blocks, but a second EDBSetup made Search read exactly the same slots of A for every keyword "
+                            "(list lengths %s)" % (st.name, nblocks, prof), scheme=st.name, profile=prof)
+    return {"cases": cases, "bound": "6 ordered-table schemes x 2 configurations x 7 databases x 3 keyword orders; PiPtr/Pi2Lev slot sets of "
+                                     "two setups compared", "violations": viol}
 
 
 def rt_c07(rnd, tier):
     """C07: EDBSetup leaves DB / key / config dict intact; searches leave the index intact and repeat"""
     viol, cases = [], 0
     for st in setups(tier):
-        for prof in [[3, 5], [1], [3, 4, 5], [2, 2, 2, 2], [7, 1], [8]]:
+        for prof in [[3, 5], [1], [3, 4, 5], [2, 2, 2, 2], [7, 1], [8], [2, 10, 3, 20]]:
             if not st.fits(prof):
                 continue
             db = st.make_db(rnd, prof)
